@@ -230,11 +230,11 @@ Restart ==
   /\ next' = (IF LastBlock(kv) = -1 THEN start ELSE LastBlock(kv)) + 1
   /\ UNCHANGED <<chain, start, kv, pending, cur, pos, crashes, skipped>>
 
-(* Known deviation D18 (server/indexer_service.go OnStart): an empty index is taken for "index from the
+(* Known deviation D21 (server/indexer_service.go OnStart): an empty index is taken for "index from the
    current chain height on", also on a restart: the blocks start+1 .. tip are never indexed. *)
-DevD18 == "Converges/empty-index-restart-skips-to-latest"
-Dev_D18_Restart ==
-  /\ DevD18 \in Known
+DevD21 == "Converges/empty-index-restart-skips-to-latest"
+Dev_D21_Restart ==
+  /\ DevD21 \in Known
   /\ ~up /\ start # -1 /\ LastBlock(kv) = -1 /\ up' = TRUE
   /\ next' = tip + 1
   /\ skipped' = skipped \cup ((start + 1)..tip)
@@ -243,7 +243,7 @@ Dev_D18_Restart ==
 Next ==
   \/ Commit \/ Enable
   \/ \E h \in 1..Len(chain) : BeginBatch(h) \/ Reindex(h)
-  \/ PhysWrite \/ Flush \/ Crash \/ Restart \/ Dev_D18_Restart
+  \/ PhysWrite \/ Flush \/ Crash \/ Restart \/ Dev_D21_Restart
 
 Progress == Commit \/ Enable \/ (\E h \in 1..Len(chain) : BeginBatch(h)) \/ PhysWrite \/ Flush \/ Restart
 
